@@ -123,7 +123,10 @@ Definition pd_loc_set_from (mask : list bool) (c c2 : string) (t : table) : opti
               paired with (that pair is one column: the left value, or the right value in a row without left part); a remaining
               right column whose name also occurs on the left gets the suffix sfx (left names keep theirs: suffix "").
               MergeError when the resulting names are not distinct.
-   rows     : inner - left order, each left row with its matches in right order
+   rows     : inner - the matching pairs in an order that is NOT a function of the arguments one could rely on: pandas 3 runs a hash
+                      join here, mostly "left order, each left row with its matches in right order" but not always (observed on
+                      pandas 3.0.5: left keys [1;3], right keys [3;2;3] give the pairs (1,2), (1,0)).  pd_merge lists them left-major;
+                      pd_merge_with arr lets an arbitrary rearrangement `arr` (Proofs: any permutation) act on the inner rows
               left  - the same, a left row without match once, right part null
               right - right order, each right row with its matches in left order, or once with left part null
               outer - ordered by the key (ascending, lexicographic over several keys, nulls last); within one key the pairs in
@@ -191,6 +194,14 @@ Definition pd_merge (how : merge_how) (l r : table) (lon ron : list string) (sfx
        then Some (mktable out (map (merge_row (cols l) (cols r) lon ron) (merge_pairs how l r lon ron)))
        else None
   else None.
+
+(* the order in which an INNER merge lists its rows is unspecified: an arbitrary rearrangement of them *)
+Definition arranger := list (list val) -> list (list val).
+Definition id_arranger : arranger := fun l => l.
+Definition arrange (how : merge_how) (arr : arranger) (l : list (list val)) : list (list val) :=
+  match how with HInner => arr l | _ => l end.
+Definition pd_merge_with (arr : arranger) (how : merge_how) (l r : table) (lon ron : list string) (sfx : string) : option table :=
+  option_map (fun t => mktable (cols t) (arrange how arr (rows t))) (pd_merge how l r lon ron sfx).
 
 (* ------------------------------------------------------------------ groupby *)
 (* df.groupby(keys, observed=True, dropna=False) : the groups are the distinct key tuples (a null is a key value like any other:
